@@ -75,6 +75,8 @@ def _diff(exp: typing.Any, got: typing.Any) -> str:
 
 
 def check_mirror(case: typing.Any, ctx: Ctx) -> Info:
+    import pydsdl
+
     model = case["model"]
     ROOT = ROOTS[case.get("naming", 0) % len(ROOTS)]
     naming = case.get("naming", 0) // len(ROOTS)
@@ -110,6 +112,12 @@ def check_mirror(case: typing.Any, ctx: Ctx) -> Info:
                 ends_bare = fmt["final"] == "none"
                 sig = "mirror:%s%s" % (label, ":no-final-newline" if ends_bare and observed[0] == expected else "")
                 raise Violation(sig, expected, got, "format %r text %r" % (fmt, text))
+            # what is inside the field types - the element type of an array, the fields of a nested composite - is what the definitions
+            # written for *this* case say (the same names T1, T2... carry other contents in other cases of this process)
+            for sec, sm in zip(([t.request_type, t.response_type] if got["service"] else [t]), model["sections"]):
+                want = [defs.deep_expected(it["type"]) for it in sm["items"] if it["k"] == "field"]
+                have = [defs.deep_observed(f.data_type) for f in sec.fields if not isinstance(f, pydsdl.PaddingField)]
+                require(want == have, "mirror:nested-type", want, have, "format %r text %r" % (fmt, text))
             # the accessor views agree with each other: attributes == fields followed by constants
             for sec in ([t.request_type, t.response_type] if got["service"] else [t]):
                 names = [a.name for a in sec.attributes]
